@@ -65,6 +65,8 @@ def op_set_format(sim: Sim, a) -> str:
         args = "tickbox"
     elif isinstance(v, (int, float)):
         kind = a.get("kind") if a.get("kind") in NUMBER_KINDS else NUMBER_KINDS[k % len(NUMBER_KINDS)]
+        if kind == "rating" and not (0 <= v <= 5):
+            kind = "number"  # a star rating renders int(value) stars: only meaningful (and bounded) for 0..5
         if kind == "number":
             args, kw = "number", {"decimal_places": k % 5, "show_thousands_separator": bool(k % 2)}
         elif kind == "currency":
